@@ -24,6 +24,12 @@ def window_level(chk, quick, seed):
                         (5 if quick else 6, 14 if quick else 18),
                         [vlib.SPEC + "/datapath/DLQWindow.tla"], name="DLQWindow", timeout=900)
     chk.add_design(r, "DLQWindow: all (N,T) with T<N<=5/6, all outcome sequences (ring buffers v1, v2 == sliding history)")
+    # no bound on the sequence length: without the step counter the state space is finite (history = last N
+    # outcomes, rings of Size cells), so TLC's fixpoint decides ring == policy for outcome sequences of ANY length
+    r = vlib.tlc_design("DLQWindow", "SPECIFICATION Spec\nCONSTANTS MaxN = %d MaxLen = 0\n"
+                        "INVARIANTS V1MatchesPolicy V2MatchesPolicy\nCHECK_DEADLOCK FALSE\n" % (6 if quick else 9),
+                        [vlib.SPEC + "/datapath/DLQWindow.tla"], name="DLQWindowUnbounded", timeout=1500)
+    chk.add_design(r, "DLQWindow, fixpoint without a length bound: all (N,T) with T<N<=6/9, outcome sequences of every length")
     scs = []
     per = 64 if quick else 128
     for (n, t) in PAIRS:
